@@ -13,3 +13,69 @@ kproof!(plain, 2, fn c04_q_can_accept_all_usize() {
     assert!(FunctionArity::Between(a, b).can_accept(n) == (a <= n && n <= b));
     kani::cover!(true, "reach-end");
 });
+
+// ---------------------------------------------------------------------------------------------
+// check_arity: "any other argument count is reported as an error", for every argument count
+use blots_core::ast::*;
+use blots_core::values::{CapturedScope, LambdaArg, LambdaDef};
+use std::collections::HashMap;
+
+fn lambda_def(args: Vec<LambdaArg>) -> FunctionDef {
+    FunctionDef::Lambda(LambdaDef {
+        name: None,
+        args,
+        body: sp(Expr::Null),
+        scope: CapturedScope::new(HashMap::new()),
+        source: src(),
+    })
+}
+fn req(n: &str) -> LambdaArg {
+    LambdaArg::Required(String::from(n))
+}
+fn opt(n: &str) -> LambdaArg {
+    LambdaArg::Optional(String::from(n))
+}
+fn rest(n: &str) -> LambdaArg {
+    LambdaArg::Rest(String::from(n))
+}
+
+/// parameter list shape -> (min, max or None for a rest parameter)
+macro_rules! c04_lambda_arity {
+    ($name:ident, $args:expr, $min:expr, $max:expr) => {
+        kproof!(noerr, 6, fn $name() {
+            let n: usize = kani::any();
+            let def = lambda_def($args);
+            let r = def.check_arity(n);
+            let max: Option<usize> = $max;
+            let want_ok = n >= $min && match max { Some(m) => n <= m, None => true };
+            assert!(r.is_ok() == want_ok);
+            assert!(def.arity().can_accept(n) == want_ok);
+            kani::cover!(want_ok, "reach an accepted count");
+            kani::cover!(!want_ok, "reach a rejected count");
+            std::mem::forget(def);
+        });
+    };
+}
+c04_lambda_arity!(c04_q_arity_req_req, vec![req("a"), req("b")], 2, Some(2));
+c04_lambda_arity!(c04_q_arity_req_opt, vec![req("a"), opt("b")], 1, Some(2));
+c04_lambda_arity!(c04_q_arity_req_rest, vec![req("a"), rest("r")], 1, None);
+c04_lambda_arity!(c04_t_arity_none, vec![], 0, Some(0));
+c04_lambda_arity!(c04_t_arity_opt_opt, vec![opt("a"), opt("b")], 0, Some(2));
+c04_lambda_arity!(c04_t_arity_rest, vec![rest("r")], 0, None);
+c04_lambda_arity!(c04_t_arity_req_opt_rest, vec![req("a"), opt("b"), rest("r")], 1, None);
+
+/// built-ins: check_arity agrees with arity().can_accept for every argument count
+kproof!(noerr, 4, fn c04_q_builtin_check_arity_agrees() {
+    let n: usize = kani::any();
+    let i: usize = kani::any();
+    kani::assume(i < 63);
+    let f = crate::c01::BUILTINS[i];
+    let def = FunctionDef::BuiltIn(f);
+    assert!(def.check_arity(n).is_ok() == f.arity().can_accept(n));
+    // the documented classes of a few built-ins
+    assert!(BuiltInFunction::Slice.arity().can_accept(n) == (n == 3));
+    assert!(BuiltInFunction::Round.arity().can_accept(n) == (n == 1 || n == 2));
+    assert!(BuiltInFunction::Min.arity().can_accept(n) == (n >= 1));
+    assert!(BuiltInFunction::Concat.arity().can_accept(n) == (n >= 2));
+    kani::cover!(true, "reach-end");
+});
